@@ -267,8 +267,13 @@ func (sk *SpaceKeeper) PlotWS(sid string) error {
 	// registered -> ready
 	// TODO: check for existence in plotterQueue
 	if ws, ok := sk.workSpaceIndex[engine.Registered].Get(sid); ok {
-		sk.newQueuedWorkSpaceCh <- newQueuedWorkSpace(ws, false)
-		return nil
+		// never block while holding stateLock: the plotter needs the lock before it receives again
+		select {
+		case sk.newQueuedWorkSpaceCh <- newQueuedWorkSpace(ws, false):
+			return nil
+		default:
+			return ErrPlotterQueueIsFull
+		}
 	}
 
 	// plotting -> ready
@@ -306,8 +311,13 @@ func (sk *SpaceKeeper) MineWS(sid string) error {
 	// registered -> plotting -> mining
 	// TODO: check for existence in plotterQueue
 	if ws, ok := sk.workSpaceIndex[engine.Registered].Get(sid); ok {
-		sk.newQueuedWorkSpaceCh <- newQueuedWorkSpace(ws, true)
-		return nil
+		// never block while holding stateLock: the plotter needs the lock before it receives again
+		select {
+		case sk.newQueuedWorkSpaceCh <- newQueuedWorkSpace(ws, true):
+			return nil
+		default:
+			return ErrPlotterQueueIsFull
+		}
 	}
 
 	// plotting -> mining
